@@ -1,0 +1,7 @@
+//go:build verif
+
+package server
+
+// Export for the correspondence harness of /verif (build tag `verif` only).
+
+var VerifFormatText = formatText
